@@ -5528,6 +5528,8 @@ class CodegenCtx:
             size_str = self._generate_buflike_length_expr(intexpr.ref)
             if ProgramData.do(ProgramFlag.UNSAFE_STRING_INDEXING):
                 return text
+            if isinstance(intexpr.index, LiteralIntegerExpr) and intexpr.ref.holds_a(OutputStorageType.STR) and not (0 <= intexpr.index.get_literal_result() < intexpr.ref.str_size):
+                return "0"  # constant index outside the buffer: reads 0 like any other out-of-range index (and avoids -Warray-bounds)
             if ProgramData.do(ProgramFlag.ALLOCATE_STR_SPACE_DYNAMIC_ON_DEMAND) and self._is_dynamic(intexpr.ref):
                 # the buffer may not exist (yet, or any more)
                 return f"((state->c.{intexpr.ref.name} && ({index}) >= 0 && ({index}) < {size_str}) ? {text} : 0)"
